@@ -499,9 +499,16 @@ FloatPool == {VFin(FALSE, 0, 0), VFin(TRUE, 0, 0), VFin(FALSE, 1, 1), VFin(FALSE
 StrPool == {<<>>, <<97, 98>>, <<97, 39, 8364>>, <<34, 39, 92, 10>>, <<233, 133, 128512>>}
            \cup (IF Level = 1 THEN {} ELSE {<<34>>, <<127, 173, 9, 13>>, <<55296>>, <<97, 98, 99, 100, 101, 102, 103>>, <<0>>})
 ObjInts == {I(0), I(5), I(-5), I(255), I(-1234567), VInt(FALSE, P2(70)), VInt(TRUE, AddOne(P2(63))), I(1114112)}
-ObjOps == {Op("obj", 0, v) : v \in ObjInts \cup {VBool(TRUE), VBool(FALSE), VNone} \cup FloatPool \cup {VStr(t) : t \in StrPool}}
-OtherOps == {Op("bint", 0, VBool(b)) : b \in BOOLEAN} \cup {Op("cdouble", 0, v) : v \in FloatPool}
-            \cup {Op("strobj", 0, VStr(t)) : t \in StrPool} \cup {Op("strobj", 0, VNone)}
+FloatLight == IF Level = 1 THEN {VFin(FALSE, 0, 0), VFin(TRUE, 0, 0), VFin(FALSE, 3, 1), VFin(TRUE, 5, 1), VFin(FALSE, 2469, 1), VNan, VInf(TRUE)} ELSE FloatPool
+ObjOpsF(fp) == {Op("obj", 0, v) : v \in ObjInts \cup {VBool(TRUE), VBool(FALSE), VNone} \cup fp \cup {VStr(t) : t \in StrPool}}
+OtherOpsF(fp) == {Op("bint", 0, VBool(b)) : b \in BOOLEAN} \cup {Op("cdouble", 0, v) : v \in fp}
+                 \cup {Op("strobj", 0, VStr(t)) : t \in StrPool} \cup {Op("strobj", 0, VNone)}
+ObjOps == ObjOpsF(FloatLight)
+OtherOps == OtherOpsF(FloatLight)
+ConvOps == {Op("cint", ti, v) : ti \in {1, 5, 10}, v \in {I(-7), I(0), I(65)}} \cup {Op("bint", 0, VBool(TRUE))}
+           \cup {Op("cdouble", 0, v) : v \in {VFin(FALSE, 3, 1), VFin(TRUE, 0, 0), VNan}}
+           \cup {Op("obj", 0, v) : v \in {I(5), I(-5), VBool(TRUE), VNone, VFin(FALSE, 3, 1), VStr(<<97, 39, 8364>>), VStr(<<233, 133, 128512>>)}}
+           \cup {Op("strobj", 0, VStr(<<34, 39, 92, 10>>)), Op("strobj", 0, VNone)}
 InDomain(o) == o.car # "cint" \/ InRange(IntCTypes[o.ti], o.v)
 
 \* ---- f-string cases: [site, s (spec text), conv, cls]
@@ -524,10 +531,15 @@ NonDefault(f) == (IF f.fill # 0 THEN 1 ELSE 0) + (IF f.align # 0 THEN 1 ELSE 0) 
 Hash(f) == f.fill * 3 + f.align * 5 + f.sign * 7 + (IF f.alt THEN 11 ELSE 0) + (IF f.zero THEN 13 ELSE 0) + (f.width + 1) * 17 + f.grp * 19
            + (f.prec + 1) * 23 + f.type * 29
 MaxFields == IF Level = 1 THEN 4 ELSE 6
-GenFields == {f \in {FieldRec(fi, al, sg, alt, z, w, g, p, t) : fi \in Fills, al \in Aligns, sg \in Signs, alt \in BOOLEAN, z \in BOOLEAN, w \in Widths,
-                                                                  g \in Grps, p \in Precs, t \in Types} :
-                 /\ (f.fill # 0 => f.align # 0) /\ NonDefault(f) >= 1 /\ NonDefault(f) <= MaxFields
-                 /\ (Hash(f) + Seed) % Mod = 0}
+\* generic specs: a seeded sample of the grammar (the two halves of the field list are sampled independently)
+ModA == IF Mod >= 20 THEN 5 ELSE IF Mod >= 4 THEN 2 ELSE 1
+ModB == Max(Mod \div ModA, 1)
+HalfA == {h \in [fill : Fills, align : Aligns, sign : Signs, alt : BOOLEAN, zero : BOOLEAN] :
+            (h.fill # 0 => h.align # 0) /\ (h.fill * 3 + h.align * 5 + h.sign * 7 + (IF h.alt THEN 11 ELSE 0) + (IF h.zero THEN 13 ELSE 0) + Seed) % ModA = 0}
+HalfB == {h \in [width : Widths, grp : Grps, prec : Precs, type : Types] :
+            ((h.width + 1) * 17 + h.grp * 19 + (h.prec + 1) * 23 + h.type * 29 + Seed \div ModA) % ModB = 0}
+GenFields == {f \in {FieldRec(a.fill, a.align, a.sign, a.alt, a.zero, b.width, b.grp, b.prec, b.type) : a \in HalfA, b \in HalfB} :
+                 NonDefault(f) >= 1 /\ NonDefault(f) <= MaxFields}
 \* the family of specs around the C-level integer path: [>-]? 0? width? [odxXc]?
 CoreWidths == IF Level = 1 THEN {-1, 1, 2, 5, 12, 252} ELSE {-1, 1, 2, 3, 5, 12, 25, 70, 251, 252, 253, 300}
 CoreFields == {FieldRec(0, al, 0, FALSE, z, w, 0, -1, t) : al \in {0, cGt}, z \in BOOLEAN, w \in CoreWidths, t \in {0, ch_c, ch_d, ch_o, ch_x, ch_X}}
@@ -544,12 +556,18 @@ FstrCases == {FCase(Render(f), 0, "core") : f \in CoreFields}
              \cup {FCase(Render(f), cv, "conv") : f \in CFamFields \cup FFamFields, cv \in (IF Level = 1 THEN {ch_r} ELSE Convs)}
              \cup {FCase(Render(f), 0, "ffam") : f \in FFamFields}
              \cup {FCase(Render(f), 0, "gen") : f \in GenFields \ (CoreFields \cup CFamFields \cup FFamFields)}
-             \cup {FCase(Render(f), cv, "gen") : f \in {g \in GenFields : (Hash(g) + Seed) % (Mod * 3) = 0}, cv \in Convs}
+             \cup {FCase(Render(f), cv, "gen") : f \in {g \in GenFields : (Hash(g) + Seed) % 3 = 0}, cv \in Convs}
              \cup {FCase(t, 0, "bad") : t \in BadTexts} \cup {FCase(<<>>, cv, "gen") : cv \in Convs \cup {0}}
 IsOrdSpec(s) == s # <<>> /\ s[Len(s)] = ch_c
+CoreFull == {Render(FieldRec(0, 0, 0, FALSE, z, w, 0, -1, t)) : z \in BOOLEAN, w \in {-1, 12}, t \in {0, ch_c, ch_d, ch_o, ch_x, ch_X}}
+OrdLight == {I(x) : x \in {-1, 65, 233, 8364, 128512, 55296, 1114112, 2097152}}
 FstrOps(c) ==
-  IF c.cls = "core" THEN IntOps(IF IsOrdSpec(c.s) THEN OrdCands ELSE IntCands, TRUE) \cup {o \in OtherOps : o.car = "bint"} \cup {Op("obj", 0, v) : v \in ObjInts}
-  ELSE IntOps((IF IsOrdSpec(c.s) THEN OrdCands ELSE LightCands), c.cls \in {"cfam", "bad"}) \cup OtherOps \cup ObjOps
+  CASE c.cls = "core" -> IntOps(IF c.s \in CoreFull THEN (IF IsOrdSpec(c.s) THEN OrdCands ELSE IntCands) ELSE (IF IsOrdSpec(c.s) THEN OrdLight ELSE LightCands), TRUE)
+                         \cup {o \in OtherOps : o.car = "bint"} \cup {Op("obj", 0, v) : v \in ObjInts}
+    [] c.cls = "cfam" -> IntOps(IF IsOrdSpec(c.s) THEN OrdLight ELSE LightCands, FALSE) \cup {o \in OtherOps : o.car = "bint"} \cup {Op("obj", 0, v) : v \in ObjInts}
+    [] c.cls = "conv" -> ConvOps
+    [] c.cls = "ffam" -> IntOps({I(-9), I(100)}, FALSE) \cup OtherOpsF(FloatPool) \cup ObjOpsF(FloatPool)
+    [] OTHER -> IntOps(IF IsOrdSpec(c.s) THEN OrdLight ELSE LightCands, FALSE) \cup OtherOps \cup ObjOps
 
 \* ---- %-formatting cases: "%" pre prectext ty
 FlagSeqs == {<<>>} \cup {<<a>> : a \in {cMinus, c0, cSp, cPlus, cHash}} \cup {<<a, b>> : a \in {cMinus, c0, cSp, cPlus, cHash}, b \in {cMinus, c0, cSp, cPlus, cHash}}
@@ -562,7 +580,7 @@ PHash(fl, w, p, t) == (IF fl = <<>> THEN 0 ELSE fl[1] * 3 + (IF Len(fl) > 1 THEN
 PRewritable(fl, t) == (fl = <<cSp>> \/ \A i \in 1..Len(fl) : fl[i] \in {cMinus, c0}) /\ t \in {ch_a, ch_s, ch_r, ch_f, ch_d, ch_o, ch_x, ch_X}
 PctCases == {PCase(fl, w, p, t) : fl \in FlagSeqs, w \in PWidths, p \in PPrecs, t \in PTypes}
 PctSel == {c \in [fl : FlagSeqs, w : PWidths, p : PPrecs, t : PTypes] :
-              IF PRewritable(c.fl, c.t) THEN (Level = 2 \/ (PHash(c.fl, c.w, c.p, c.t) + Seed) % 2 = 0) ELSE (PHash(c.fl, c.w, c.p, c.t) + Seed) % (Mod * 2) = 0}
+              IF PRewritable(c.fl, c.t) THEN (Level = 2 \/ (PHash(c.fl, c.w, c.p, c.t) + Seed) % 3 = 0) ELSE (PHash(c.fl, c.w, c.p, c.t) + Seed) % (Mod * 2) = 0}
 PctOps == {Op("cint", ti, v) : ti \in {5, 10}, v \in LightCands} \cup OtherOps \cup ObjOps
 PFlags(c) == {c.pre[i] : i \in {j \in 1..Len(c.pre) : \A k \in 1..j : ~(c.pre[k] \in 49..57)}}    \* flag characters: before the first non-zero digit
 PWidth(c) == LET st == CHOOSE i \in 1..Len(c.pre)+1 : (i = Len(c.pre) + 1 \/ c.pre[i] \in 49..57) /\ \A j \in 1..i-1 : ~(c.pre[j] \in 49..57)
@@ -573,7 +591,7 @@ PPrec(c) == IF c.prectext = <<>> THEN -1 ELSE NumOf(c.prectext, 2, Len(c.prectex
 CallSpecs == {<<>>, <<ch_d>>, <<c0, 53, ch_x>>, <<cGt, 54>>, <<cPlus, cComma, ch_d>>, <<cDot, 50, ch_f>>, <<ch_c>>, <<cHash, ch_o>>, <<ch_s>>}
 CallCases == {[site |-> "call", s |-> <<>>, conv |-> 0, cls |-> "call", pre |-> <<>>, prectext |-> <<>>, ty |-> 0, fn |-> fn, parts |-> <<>>] : fn \in {"str", "repr", "format0"}}
              \cup {[site |-> "call", s |-> t, conv |-> 0, cls |-> "call", pre |-> <<>>, prectext |-> <<>>, ty |-> 0, fn |-> "format1", parts |-> <<>>] : t \in CallSpecs}
-CallOps == IntOps(IntCands, TRUE) \cup OtherOps
+CallOpsOf(c) == IntOps(IF c.fn = "str" THEN IntCands ELSE LightCands, TRUE) \cup OtherOps
 RefCall(c, v) == CASE c.fn = "str" -> Ok(Str(v)) [] c.fn = "repr" -> Ok(Repr(v)) [] c.fn = "format0" -> Ok(Str(v))
                    [] c.fn = "format1" -> RefFValue(v, 0, c.s)
 
@@ -584,13 +602,14 @@ PartPool == <<Lit(<<120>>), Lit(<<233>>), Lit(<<8364, 45>>), Lit(<<128512>>), Ph
               Ph(1, 0, <<cGt, 52>>), Ph(2, 0, <<>>), Ph(2, ch_r, <<>>), Ph(2, 0, <<cGt, 53>>), Ph(2, ch_a, <<>>), Ph(1, 0, <<c0, 50, ch_c>>)>>
 NPP == Len(PartPool)
 JHash(ix) == ix[1] * 3 + ix[2] * 7 + ix[3] * 13 + (IF Len(ix) > 3 THEN ix[4] * 17 ELSE 0) + (IF Len(ix) > 4 THEN ix[5] * 23 ELSE 0)
-JoinIdx == {ix \in [1..3 -> 1..NPP] : (JHash(ix) + Seed) % (IF Level = 1 THEN 6 ELSE 1) = 0}
-           \cup {ix \in [1..4 -> 1..NPP] : (JHash(ix) + Seed) % (IF Level = 1 THEN 150 ELSE 12) = 0}
-           \cup {ix \in [1..5 -> 1..NPP] : (JHash(ix) + Seed) % (IF Level = 1 THEN 4000 ELSE 200) = 0}
+J3 == {ix \in {<<i, j, k>> : i \in 1..NPP, j \in 1..NPP, k \in 1..NPP} : (JHash(ix) + Seed) % (IF Level = 1 THEN 20 ELSE 2) = 0}
+J4 == {ix \in {jx \o <<l>> : jx \in J3, l \in 1..NPP} : (JHash(ix) + Seed) % (IF Level = 1 THEN 16 ELSE 6) = 0}
+J5 == {ix \in {jx \o <<l>> : jx \in J4, l \in 1..NPP} : (JHash(ix) + Seed) % (IF Level = 1 THEN 30 ELSE 8) = 0}
+JoinIdx == J3 \cup J4 \cup J5
 JoinCases == {[site |-> "join", s |-> <<>>, conv |-> 0, cls |-> "join", pre |-> <<>>, prectext |-> <<>>, ty |-> 0, fn |-> "",
                parts |-> [i \in 1..Len(ix) |-> PartPool[ix[i]]] \o <<>>] : ix \in JoinIdx}
-JoinA == {I(x) : x \in {65, 233, 8364, 128512, 55296, -7, 1114112}}
-JoinB == {VStr(<<113>>), VStr(<<233, 8364>>), VStr(<<128512>>), I(5), VNone, VStr(<<>>)}
+JoinA == {I(x) : x \in {65, 233, 8364, 128512, -7} \cup (IF Level = 1 THEN {} ELSE {55296, 1114112, 127, 255})}
+JoinB == {VStr(<<113>>), VStr(<<233, 8364>>), VStr(<<128512>>), I(5)} \cup (IF Level = 1 THEN {} ELSE {VNone, VStr(<<>>)})
 JoinOps == {[car |-> "join", ti |-> 5, v |-> a, w |-> b] : a \in JoinA, b \in JoinB}
 PartRef(p, a, b) == IF p.lit THEN Ok(p.t) ELSE RefFValue(IF p.op = 1 THEN a ELSE b, p.conv, p.s)
 PartImpl(p, a, b) == IF p.lit THEN Ok(p.t) ELSE IF p.op = 1 THEN ImplFValue("cint", IntCTypes[5], a, p.conv, p.s) ELSE RefFValue(b, p.conv, p.s)
@@ -629,7 +648,7 @@ Init == /\ kase \in AllCases /\ phase = "todo" /\ ops = <<>> /\ row = <<>>
 
 OpsOf(c) == CASE c.site = "fstr" -> {o \in FstrOps(c) : InDomain(o)}
               [] c.site = "pct" -> {o \in PctOps : InDomain(o)}
-              [] c.site = "call" -> {o \in CallOps : InDomain(o)}
+              [] c.site = "call" -> {o \in CallOpsOf(c) : InDomain(o)}
               [] c.site = "join" -> JoinOps
 TOf(o) == IF o.car = "cint" THEN IntCTypes[o.ti] ELSE IntCTypes[5]
 RefOf(c, o) == CASE c.site = "fstr" -> RefFValue(o.v, c.conv, c.s)
@@ -640,11 +659,13 @@ ImplOf(c, o, ref) == CASE c.site = "fstr" -> ImplFValue(o.car, TOf(o), o.v, c.co
                        [] c.site = "pct" -> PctImpl(o.car, TOf(o), c.pre, c.prectext, c.ty, o.v, ref)
                        [] c.site = "call" -> ref
                        [] c.site = "join" -> JoinImpl(c, o.v, o.w)
-Eval(site) == /\ phase = "todo" /\ kase.site = site
-              /\ LET os == SX!SetToSeq(OpsOf(kase)) IN
-                 /\ ops' = os
-                 /\ row' = [i \in 1..Len(os) |-> LET r == RefOf(kase, os[i]) IN <<r, ImplOf(kase, os[i], r)>>]
-              /\ phase' = "done" /\ UNCHANGED kase
+\* (two steps: TLC re-evaluates a LET-bound value of an action at every use, so the operand list is made a state variable first)
+Eval(site) == \/ /\ phase = "todo" /\ kase.site = site
+                 /\ ops' = SX!SetToSeq(OpsOf(kase))
+                 /\ phase' = "ops" /\ UNCHANGED <<kase, row>>
+              \/ /\ phase = "ops" /\ kase.site = site
+                 /\ row' = [i \in 1..Len(ops) |-> LET r == RefOf(kase, ops[i]) IN <<r, ImplOf(kase, ops[i], r)>>]
+                 /\ phase' = "done" /\ UNCHANGED <<kase, ops>>
 EvalFstr == Eval("fstr")
 EvalPct == Eval("pct")
 EvalCall == Eval("call")
@@ -675,7 +696,7 @@ DigitLaw == Done => \A i \in Cells : IntCell(i) =>
                   ds == SelectSeq(t, LAMBDA c : val(c) < base)        \* the digits of the text (fill, sign and separators dropped)
                   nd == Len(DigitsOf(ops[i].v.mag, base))
                   signlen == IF ops[i].v.neg \/ ps.sign \in {cPlus, cSp} THEN 1 ELSE 0
-              IN (base # 0 /\ ~ps.alt /\ ps.fill \in {cSp, c0, 42, 233, 128512, cLt} /\ (ps.fill = c0 => ps.align \in {cEq, cGt})) =>
+              IN (base # 0 /\ ~ps.alt /\ ps.width <= 70 /\ ps.fill \in {cSp, c0, 42, 233, 128512, cLt} /\ (ps.fill = c0 => ps.align \in {cEq, cGt})) =>
                    /\ Horner([j \in 1..Len(ds) |-> val(ds[j])] \o <<>>, base, ZeroM) = ops[i].v.mag      \* the digits denote |v| (leading zeros are harmless)
                    /\ ((\E j \in 1..Len(t) : t[j] = cMinus) <=> ops[i].v.neg)
                    /\ Len(t) >= ps.width
@@ -697,6 +718,8 @@ HzClass(c, o, ref, impl) ==
   ELSE IF c.site = "pct" THEN
        LET fl == PFlags(c) ars == c.ty \in {ch_a, ch_s, ch_r} IN
        (IF ars /\ c.pre = <<cSp>> THEN "pct-space-str"
+        ELSE IF ars /\ o.car \in {"cint", "bint"} /\ ImplCPath(o.car, PctRewrite(c.pre, c.prectext, c.ty).spec) /\ PctRewrite(c.pre, c.prectext, c.ty).spec # <<>> THEN "conv-dropped"
+        ELSE IF ars /\ Len(c.pre) >= 2 /\ c.pre[1] = c0 /\ c.pre[2] = c0 THEN "pct-zero-zero-str"
         ELSE IF cMinus \in fl /\ (c0 \in fl \/ Len(SelectSeq(c.pre, LAMBDA ch : ch = cMinus)) > 1) THEN "pct-minus-combo"
         ELSE IF ars /\ fl = {} /\ PWidth(c) > 0 /\ ref.e = 0 /\ ~ImplCPath(o.car, PctRewrite(c.pre, c.prectext, c.ty).spec) THEN "pct-str-align"
         ELSE IF ref.e = 2 /\ impl.e = 1 /\ c.ty \in {ch_o, ch_x, ch_X, ch_f} /\ o.v.k \in {"str", "float"} THEN "pct-type-error"
